@@ -522,7 +522,8 @@ std::string float_mpq_to_string(mpq_class& q) {
     mpz_mul(n, n, d);
   }
   size_t bufsize = mpz_sizeinbase(n, 10);
-  if (bufsize < decimals) {
+  if (bufsize <= decimals) {
+    // Sign, leading "0.", `decimals' digits and terminator.
     bufsize = decimals + 4;
   }
   else {
@@ -531,17 +532,21 @@ std::string float_mpq_to_string(mpq_class& q) {
   char buf[bufsize];
   mpz_get_str(buf, 10, n);
   if (decimals != 0) {
-    const size_t len = strlen(buf);
+    // The decimal point has to be placed among the digits:
+    // leave the sign, if any, where it is.
+    char* const digits = (buf[0] == '-') ? &buf[1] : &buf[0];
+    const size_t len = strlen(digits);
     if (decimals < len) {
-      memmove(&buf[len - decimals + 1], &buf[len - decimals], decimals + 1);
-      buf[len - decimals] = '.';
+      memmove(&digits[len - decimals + 1], &digits[len - decimals],
+              decimals + 1);
+      digits[len - decimals] = '.';
     }
     else {
       const size_t zeroes = decimals - len;
-      memmove(&buf[2 + zeroes], &buf[0], len + 1);
-      buf[0] = '0';
-      buf[1] = '.';
-      memset(&buf[2], '0', zeroes);
+      memmove(&digits[2 + zeroes], &digits[0], len + 1);
+      digits[0] = '0';
+      digits[1] = '.';
+      memset(&digits[2], '0', zeroes);
     }
   }
   return buf;
